@@ -1,6 +1,6 @@
 SPECIFICATION Spec
 CONSTANTS
-  Part = "exp"
+  Part = "misc"
   Size = "quick"
   Defects = {"leapday"}
 INVARIANT TypeOK
